@@ -8,6 +8,10 @@
       antisymm    : c a b = -(c b a)
       trans       : c a b ≤ 0 → c b d ≤ 0 → c a d ≤ 0
       eq_zero_iff : c a b = 0 ↔ a = b            ("0 only for values holding the same data")
+  `TotalOrderUpTo P key c` is the same with `eq_zero_iff : c a b = 0 ↔ key a = key b`; for record
+  trees `key` is `data` (Stef/Cmp.lean): the tree with the values STORED in absent optional fields
+  erased - they are hidden state, not data (the getter's result is meaningless when Has<Field>() is
+  false, no encoder writes them, IsEqual ignores them).
 
   The primitive comparators are the functions regenerated from go/pkg/types.go (Stef.Gen.*); the
   structural comparison `cmp`, `isEqual`, `clone`, `copyFrom` are the transcription of the stefc
@@ -19,8 +23,12 @@
   IEEE-754 totalOrder key of the bit patterns; the laws below are now proved for ALL bit patterns
   and the structural theorems carry no float hypothesis any more. Commit 59db810 replaced the
   `!=` guards of the generated setters and copy loops by pkg.<T>Equal, so the copy theorems hold
-  for all float bit patterns too. What remains refuted is template-level: Clone drops optional
-  presence, Cmp reads stored values of absent optionals (and a `!=` left in copy<Multimap>).
+  for all float bit patterns too. Until 82431a4 <Struct>.Clone dropped `optionalFieldsPresent`
+  (`clone_equal` was refuted, finding clone-loses-optional-presence) and Cmp<Struct> compared the
+  values stored in optional fields absent on both sides (IsEqual values with Cmp ≠ 0, finding
+  cmp-stale-optional): Cmp separated more than the data. Since that commit Cmp = 0 ⇔ same data ⇔
+  IsEqual, and Clone / CopyFrom / copyToNew results compare 0 with their source, for ALL values.
+  What remains refuted is one `!=` left in copy<Multimap> (unreachable in go/otel).
 -/
 import Stef.Proofs.Cmp
 import Stef.Proofs.CmpCopy
@@ -101,26 +109,42 @@ example : Flt.isNaN 0xfff0000000000000#64 = false ∧ Flt.isNaN 0x00000000000000
 /-- MAIN LIFTING THEOREM. For any leaf type and leaf operations: if the leaf comparison is a total
     order on the leaves satisfying `P`, then the generated structural comparison (struct with
     optional presence, oneof, array, multimap, nil dictionary pointers; Stef.Cmp.cmp) is a total
-    order on ALL record trees whose leaves satisfy `P` - whatever their shapes. In particular it
-    returns 0 only for identical trees, so a dictionary lookup or a grouping tree keyed by `cmp`
-    never substitutes one value for a different one. -/
+    order on ALL record trees whose leaves satisfy `P` - whatever their shapes - and it returns 0
+    exactly for trees holding the same data (`data`: everything but the values stored in absent
+    optional fields). So a dictionary lookup or a grouping tree keyed by `cmp` never substitutes one
+    value for a different one. -/
 theorem cmp_total_order {α : Type} (P : α → Prop) (o : LeafOps α) (h : TotalOrderCmp P o.cmp) :
-    TotalOrderCmp (Value.All P) (cmp o) where
+    TotalOrderUpTo (Value.All P) data (cmp o) where
   refl a ha := cmp_refl h.toExact.toLeafOrder a ha
   antisymm a b ha hb := cmp_antisymm h.toExact.toLeafOrder a b ha hb
   trans a b d ha hb hd := (cmp_tri h.toExact.toLeafOrder a b d ha hb hd).le
   eq_zero_iff a b ha hb :=
-    ⟨cmp_eq_of_zero h.toExact a b ha hb,
-     fun e => by subst e; exact cmp_refl h.toExact.toLeafOrder a ha⟩
+    ⟨cmp_data_of_zero h.toExact a b ha hb, cmp_zero_of_data h.toExact.toLeafOrder a b ha⟩
 
 /-- non-vacuity: the hypothesis is met by uint64 leaves under pkg.Uint64Compare, and the conclusion
     then covers e.g. a struct holding an optional field, a oneof and an array -/
-example : TotalOrderCmp (Value.All (fun _ : BitVec 64 => True))
+example : TotalOrderUpTo (Value.All (fun _ : BitVec 64 => True)) data
     (cmp { cmp := Gen.uint64Compare, eq := Gen.uint64Equal, same := Gen.uint64Equal, zero := fun _ => 0 }) :=
   cmp_total_order _ _ uint64Compare_total_order
 example : (Value.struct (.cons .req (.leaf 5#64) (.cons .present (.choice 2#8 (.leaf 7#64))
     (.cons .req (.arr (.cons (.leaf 1#64) .nil)) .nil)))).All (fun _ : BitVec 64 => True) :=
   all_true _
+
+/-- On trees without hidden state - no optional field absent anywhere, e.g. every type without
+    optional fields - "the same data" is "identical": `data` is the identity there. -/
+theorem data_eq_self_of_no_absent {α : Type} (v : Value α) (h : v.NoAbsent) : data v = v :=
+  data_noAbsent v h
+
+/-- ... so there Cmp = 0 only for identical trees (the statement that held for all trees while
+    Cmp<Struct> still compared the stored values of absent fields). -/
+theorem cmp_zero_identical {α : Type} (P : α → Prop) (o : LeafOps α) (h : TotalOrderCmp P o.cmp)
+    (a b : Value α) (ha : a.All P) (hb : b.All P) (na : a.NoAbsent) (nb : b.NoAbsent) :
+    cmp o a b = 0 ↔ a = b := by
+  rw [(cmp_total_order P o h).eq_zero_iff a b ha hb, data_noAbsent a na, data_noAbsent b nb]
+
+example : (Value.struct (.cons .req (.leaf 5#64) (.cons .present (.choice 2#8 (.leaf 7#64))
+    (.cons .req (.arr (.cons (.leaf 1#64) .nil)) .nil)))).NoAbsent := by
+  simp [Value.NoAbsent, Fields.NoAbsent, Values.NoAbsent]
 
 /-- The order part (reflexive, antisymmetric, transitive) needs only a total PREORDER on the leaves
     (`LeafOrder`: the comparison agrees with some integer key); exactness is not used. -/
@@ -140,8 +164,9 @@ theorem primCompare_total_order : TotalOrderCmp (fun _ : PrimVal => True) primCo
 
 /-- THE PROPERTY for the comparison: over the real primitive comparators the generated structural
     Cmp is a total order on ALL record trees - every float bit pattern, every shape, optional
-    presence, nil dictionary pointers - and returns 0 only for identical trees. No hypothesis. -/
-theorem cmp_prim_total_order : TotalOrderCmp (fun _ : Value PrimVal => True) (cmp primOps) := by
+    presence, nil dictionary pointers - and returns 0 exactly for trees holding the same data.
+    No hypothesis. -/
+theorem cmp_prim_total_order : TotalOrderUpTo (fun _ : Value PrimVal => True) data (cmp primOps) := by
   have h := cmp_total_order (fun _ : PrimVal => True) primOps primCompare_total_order
   exact {
     refl := fun a _ => h.refl a (all_true a)
@@ -175,34 +200,42 @@ theorem isEqual_iff_same_data (a b : Value PrimVal) :
 example : isEqual primOps (samplePoint nan) (samplePoint nan) = true ∧
     isEqual primOps (samplePoint negZero) (samplePoint posZero) = false := by with_unfolding_all decide
 
-/-- Cmp = 0 only for values holding the same data (and then IsEqual agrees). -/
-theorem cmp_zero_same_data (a b : Value PrimVal) (h : cmp primOps a b = 0) :
-    a = b ∧ data a = data b ∧ isEqual primOps a b = true := by
-  have e := (cmp_prim_total_order.eq_zero_iff a b trivial trivial).mp h
-  subst e
-  exact ⟨rfl, rfl, (isEqual_iff_same_data a a).mpr rfl⟩
+/-- Cmp = 0 exactly for values holding the same data, for all values. -/
+theorem cmp_zero_iff_same_data (a b : Value PrimVal) :
+    cmp primOps a b = 0 ↔ data a = data b :=
+  cmp_prim_total_order.eq_zero_iff a b trivial trivial
+
+/-- Cmp and IsEqual agree on ALL values: Cmp(a, b) = 0 ⇔ a.IsEqual(b). (Until /repo 82431a4 only
+    `→` held: Cmp<Struct> compared the values stored in optional fields absent on both sides,
+    finding cmp-stale-optional.) -/
+theorem cmp_zero_iff_isEqual (a b : Value PrimVal) :
+    cmp primOps a b = 0 ↔ isEqual primOps a b = true := by
+  rw [cmp_zero_iff_same_data, isEqual_iff_same_data]
 
 example : cmp primOps (samplePoint two) (samplePoint two) = 0 := by with_unfolding_all decide
 
-/-- two histogram-like structs that differ only in the value stored in an ABSENT optional field -/
+/-- two histogram-like structs that differ only in the value stored in an ABSENT optional field
+    (the state after Set(5); Unset against a fresh value): the former witness of cmp-stale-optional -/
 def staleA : Value PrimVal := .struct (.cons .req (.leaf (.i64 1)) (.cons .absent (.leaf (.u64 5)) .nil))
 def staleB : Value PrimVal := .struct (.cons .req (.leaf (.i64 1)) (.cons .absent (.leaf (.u64 0)) .nil))
 
-/-- The converse is FALSE for the generated code: Cmp<Struct> also compares the values stored in
-    optional fields that are absent on both sides, so IsEqual values can have Cmp ≠ 0 (finding
-    cmp-stale-optional; the direction the property does not need). -/
-theorem isEqual_imp_cmp_zero_false :
-    ¬ ∀ a b : Value PrimVal, isEqual primOps a b = true → cmp primOps a b = 0 := by
-  intro h
-  have := h staleA staleB (by with_unfolding_all decide)
-  revert this; with_unfolding_all decide
+/-- non-vacuity of the `←` direction on hidden state: different trees, same data, IsEqual, Cmp = 0;
+    and a present field is still compared -/
+example : staleA ≠ staleB := by simp [staleA, staleB]
+example : data staleA = data staleB := by with_unfolding_all rfl
+example : isEqual primOps staleA staleB = true ∧ cmp primOps staleA staleB = 0 ∧
+    cmp primOps (.struct (.cons .req (.leaf (.i64 1)) (.cons .present (.leaf (.u64 5)) .nil))) staleA = 1 ∧
+    cmp primOps (.struct (.cons .req (.leaf (.i64 1)) (.cons .present (.leaf (.u64 5)) .nil)))
+      (.struct (.cons .req (.leaf (.i64 1)) (.cons .present (.leaf (.u64 6)) .nil))) = -1 := by
+  with_unfolding_all decide
 
 /-! ## 5. CopyFrom and Clone
 
   Since /repo commit 59db810 the generated setters and copy loops are guarded by pkg.<T>Equal (bit
   equality for floats since 05846e0), so copies are exact for every float bit pattern. Go's `!=` is
   left in one modelled place, the primitive key/value branch of copy<Multimap> (no multimap of
-  go/otel has a float key or value). -/
+  go/otel has a float key or value). "Equal to the source" is stated three ways each time: same
+  data, IsEqual, Cmp = 0. -/
 
 /-- every record tree is equal to itself under IsEqual (NaN leaves included) -/
 theorem isEqual_refl (v : Value PrimVal) : isEqual primOps v v = true :=
@@ -211,33 +244,43 @@ theorem isEqual_refl (v : Value PrimVal) : isEqual primOps v v = true :=
 example : isEqual primOps (samplePoint nan) (samplePoint nan) = true := by with_unfolding_all decide
 
 /-- copyToNew (the copy into a fresh value that Clone and the decoders' dictionaries use): the copy
-    holds the same data and IsEqual(copy, source) - for ALL values, no float hypothesis. -/
+    holds the same data, IsEqual(copy, source) and Cmp(copy, source) = 0 - for ALL values, no
+    hypothesis (absent optional fields holding stale values included). -/
 theorem copyNew_equal (s : Value PrimVal) :
-    data (copyNew primOps s) = data s ∧ isEqual primOps (copyNew primOps s) s = true := by
+    data (copyNew primOps s) = data s ∧ isEqual primOps (copyNew primOps s) s = true ∧
+    cmp primOps (copyNew primOps s) s = 0 := by
   have e := data_copyNew primEq s
-  exact ⟨e, (isEqual_iff_same_data _ _).mpr e⟩
+  exact ⟨e, (isEqual_iff_same_data _ _).mpr e, (cmp_zero_iff_same_data _ _).mpr e⟩
 
 example : isEqual primOps (copyNew primOps (samplePoint negZero)) (samplePoint negZero) = true ∧
-    isEqual primOps (copyNew primOps (samplePoint nan)) (samplePoint nan) = true := by
+    isEqual primOps (copyNew primOps (samplePoint nan)) (samplePoint nan) = true ∧
+    cmp primOps (copyNew primOps staleA) staleA = 0 := by
   with_unfolding_all decide
+/-- ... where the copy is NOT the same tree: copyToNew leaves the zero in the absent field -/
+example : copyNew primOps staleA = staleB := by with_unfolding_all rfl
 
 /-- CopyFrom: whatever dst held before (any shape, any content), after `dst.CopyFrom(src)` dst holds
-    exactly the data of src and IsEqual(dst, src) is true - provided no float that is DIRECTLY a
-    multimap key or value (in dst or src) is the negative zero. All other leaves are unrestricted
-    (NaN, -0 in struct fields, oneofs, arrays). -/
+    exactly the data of src, IsEqual(dst, src) is true and Cmp(dst, src) = 0 - provided no float that
+    is DIRECTLY a multimap key or value (in dst or src) is the negative zero. All other leaves are
+    unrestricted (NaN, -0 in struct fields, oneofs, arrays; stale values in absent optional fields). -/
 theorem copyFrom_equal (d s : Value PrimVal)
     (hd : d.MapPrims PrimVal.notNegZero) (hs : s.MapPrims PrimVal.notNegZero) :
-    data (copyFrom primOps d s) = data s ∧ isEqual primOps (copyFrom primOps d s) s = true := by
+    data (copyFrom primOps d s) = data s ∧ isEqual primOps (copyFrom primOps d s) s = true ∧
+    cmp primOps (copyFrom primOps d s) s = 0 := by
   have e := data_copyFrom primEq primSameOk s d hs hd
-  exact ⟨e, (isEqual_iff_same_data _ _).mpr e⟩
+  exact ⟨e, (isEqual_iff_same_data _ _).mpr e, (cmp_zero_iff_same_data _ _).mpr e⟩
 
 /-- non-vacuity: the Point-like sample (its multimap has a string key and a oneof value) meets the
-    hypothesis with a -0.0 and with a NaN in its float field, and is copied exactly over another value -/
+    hypothesis with a -0.0 and with a NaN in its float field, and is copied exactly over another
+    value; the former witness of "Cmp(copy, source) ≠ 0" (a fresh value over which a value with a
+    stale absent field is copied) now compares 0 -/
 example : (samplePoint negZero).MapPrims PrimVal.notNegZero ∧ (samplePoint nan).MapPrims PrimVal.notNegZero := by
   simp [samplePoint, Value.MapPrims, Fields.MapPrims, Values.MapPrims, Pairs.MapPrims, PrimVal.notNegZero]
 example : isEqual primOps (copyFrom primOps (samplePoint posZero) (samplePoint negZero)) (samplePoint negZero) = true ∧
-    cmp primOps (copyFrom primOps (samplePoint two) (samplePoint nan)) (samplePoint nan) = 0 := by
+    cmp primOps (copyFrom primOps (samplePoint two) (samplePoint nan)) (samplePoint nan) = 0 ∧
+    cmp primOps (copyFrom primOps staleB staleA) staleA = 0 := by
   with_unfolding_all decide
+example : copyFrom primOps staleB staleA = staleB := by with_unfolding_all rfl
 
 /-- a multimap with a float64 VALUE (not a oneof): +0.0 in the destination, -0.0 in the source -/
 def mapPos : Value PrimVal := .mmap (.cons (.leaf (.str [0x6b#8])) (.leaf (.f64 posZero)) .nil)
@@ -254,52 +297,42 @@ theorem copyFrom_equal_false :
   have := h mapPos mapNeg
   revert this; with_unfolding_all decide
 
-/-- `Cmp(copy, source) = 0` is FALSE in general: a copy does not reproduce the values stored in
-    absent optional fields, which Cmp<Struct> compares (finding cmp-stale-optional). -/
-theorem cmp_copy_zero_false :
-    ¬ ∀ d s : Value PrimVal, cmp primOps (copyFrom primOps d s) s = 0 := by
-  intro h
-  have := h staleB staleA
-  revert this; with_unfolding_all decide
+/-- a histogram-like struct with an optional field that is PRESENT, one that is absent with a stale
+    stored value, and a nested struct with both: the former witness of clone-loses-optional-presence -/
+def withPresent : Value PrimVal :=
+  .struct (.cons .req (.leaf (.i64 1)) (.cons .present (.leaf (.u64 5)) (.cons .absent (.leaf (.f64 two))
+    (.cons .req (.struct (.cons .present (.leaf (.f64 nan)) (.cons .absent (.leaf (.u64 9)) .nil))) .nil))))
 
-/-- For clean sources (absent optional primitives hold their zero value) the fresh copy is
-    identical to the source, so `Cmp(copy, source) = 0` - for all float bit patterns. -/
-theorem cmp_copyNew_zero_partial (s : Value PrimVal) (cs : s.Clean primOps) :
-    copyNew primOps s = s ∧ cmp primOps (copyNew primOps s) s = 0 := by
-  have e := copyNew_clean primEq s cs
-  exact ⟨e, by rw [e]; exact cmp_prim_total_order.refl s trivial⟩
+/-- Clone (<Struct>.Clone / <Oneof>.Clone): the clone holds the same data as its source, IsEqual(clone,
+    source) is true and Cmp(clone, source) = 0 - for ALL values: every float bit pattern, optional
+    fields present or absent (with whatever stale value stored) at the top level or nested, nil
+    dictionary pointers. No hypothesis. (Until /repo 82431a4 Clone dropped `optionalFieldsPresent`
+    and this was refuted by `withPresent`.) -/
+theorem clone_equal (v : Value PrimVal) :
+    data (clone primOps v) = data v ∧ isEqual primOps (clone primOps v) v = true ∧
+    cmp primOps (clone primOps v) v = 0 := by
+  have e := data_clone primEq v
+  exact ⟨e, (isEqual_iff_same_data _ _).mpr e, (cmp_zero_iff_same_data _ _).mpr e⟩
+
+/-- non-vacuity: presence marks survive (top level: verbatim, stale value included; nested: copyToNew
+    leaves the zero in the absent field, which is not data), floats -0.0 / NaN are kept -/
+example : clone primOps withPresent =
+    .struct (.cons .req (.leaf (.i64 1)) (.cons .present (.leaf (.u64 5)) (.cons .absent (.leaf (.f64 two))
+      (.cons .req (.struct (.cons .present (.leaf (.f64 nan)) (.cons .absent (.leaf (.u64 0)) .nil))) .nil)))) := by
+  with_unfolding_all rfl
+example : isEqual primOps (clone primOps withPresent) withPresent = true ∧
+    cmp primOps (clone primOps withPresent) withPresent = 0 ∧
+    isEqual primOps (clone primOps (samplePoint negZero)) (samplePoint negZero) = true := by
+  with_unfolding_all decide
+
+/-- For clean values (absent optional primitives hold their zero value: the state after init/reset
+    and any number of Set calls, not after Set + Unset) copyToNew and Clone reproduce the STATE of
+    the source, hidden values included. -/
+theorem copy_clean_identical (s : Value PrimVal) (cs : s.Clean primOps) :
+    copyNew primOps s = s ∧ clone primOps s = s :=
+  ⟨copyNew_clean primEq s cs, clone_clean primEq s cs⟩
 
 example : (Value.struct (.cons .req (.leaf (.f64 negZero)) (.cons .absent (.leaf (.u64 0)) .nil))).Clean primOps := by
   simp [Value.Clean, Fields.Clean, primOps, primZero]
-
-/-- a histogram-like struct with an optional field that is PRESENT -/
-def withPresent : Value PrimVal := .struct (.cons .req (.leaf (.i64 1)) (.cons .present (.leaf (.u64 5)) .nil))
-
-/-- Clone is NOT equal to its source in general: <Struct>.Clone does not copy
-    `optionalFieldsPresent`, every optional field of the clone is absent
-    (finding clone-loses-optional-presence). -/
-theorem clone_equal_false :
-    ¬ ∀ v : Value PrimVal, isEqual primOps (clone primOps v) v = true := by
-  intro h
-  have := h withPresent
-  revert this; with_unfolding_all decide
-
-/-- Clone of a value without optional fields at its top level (`TopReq`; nested optionals are fine):
-    same data, IsEqual - for all float bit patterns; and for clean values identical, so Cmp = 0. -/
-theorem clone_equal_partial (v : Value PrimVal) (hq : v.TopReq) :
-    data (clone primOps v) = data v ∧ isEqual primOps (clone primOps v) v = true ∧
-    (v.Clean primOps → cmp primOps (clone primOps v) v = 0) := by
-  have e := data_clone primEq v hq
-  refine ⟨e, (isEqual_iff_same_data _ _).mpr e, ?_⟩
-  intro cv
-  rw [clone_clean primEq v hq cv]
-  exact cmp_prim_total_order.refl v trivial
-
-/-- non-vacuity: a Point-like value (its optional fields are nested inside the oneof) holding -0.0 -/
-example : (samplePoint negZero).TopReq ∧
-    isEqual primOps (clone primOps (samplePoint negZero)) (samplePoint negZero) = true := by
-  constructor
-  · simp [samplePoint, Value.TopReq, Fields.AllReq]
-  · with_unfolding_all decide
 
 end Stef.Props.C09
